@@ -1,7 +1,7 @@
 #!/bin/sh
 # usage: eval_seeded.sh <dir with Cxx.mN.patch.diff files> [ids...]   - applies each change to /repo, runs the property's quick check
 # (campaigns only: the proof step does not depend on /repo), undoes the change.  One line per change on stdout.
-dir=$1; shift
+dir=$(cd "$1" && pwd); shift
 ids=${*:-C01 C02 C03 C04 C05 C06 C07 C08 C09 C10 C11 C12 C13 C14 C15 C16 C17 C18 C19 C20}
 for id in $ids; do
   for patch in $dir/$id.m*.patch.diff $dir/$id/m*/patch.diff; do
